@@ -11,7 +11,8 @@ MODEL_QUALID = "Model.Health.run_script"
 FORMAT = ("script [n_res; failure_threshold; success_threshold; interval_ms; timeout_ms; initial_delay_ms; "
           "strategy + 16*route (strategy 0 FirstAvailable/1 RoundRobin/2 PreferHealthy/3 Custom last-healthy/4 Custom "
           "Some(1)/5 Custom None/6 Random (crate feature random); route 0 wrapper setters/1 HealthCheckConfig::builder()+with_config/2 with_config(decoy) "
-          "then setters/3 setters(decoy) then with_config); "
+          "then setters/3 setters(decoy) then with_config; + 64 the registered on_check_failed panics, + 128 the registered "
+          "on_health_change panics, + 256 with a payload whose destructor panics (routes 1-3)); "
           "R; n_ev; (answer 0 Healthy/1 Degraded/2 Unhealthy/3 Unknown, delay_ms)*R per resource (k-th check of the "
           "resource; delay > timeout = timed out); (op, arg)*n_ev: op 0 advance arg ms then observe, op 1 get_healthy "
           "x arg, op 2 get_usable x arg] -> trace [per op 0: per resource status (+100/+200: get_status / "
@@ -25,7 +26,8 @@ RULE = ("random: 0-8 resources, thresholds 1-12 (rarely 0; large ones 255/256/25
         "exactly threshold-1 / threshold / threshold+1, all strategies incl. custom selectors, selections interleaved "
         "with status changes, k*n round-robin bursts, get_healthy/get_usable alternating (one cursor per accessor), "
         "round-robin runs of 255-260, 1000 and 65535-65540 calls through one accessor (cursor beyond a byte / 16 bits), "
-        "the Random strategy, scripts observed after every millisecond (one check result per observation); "
+        "the Random strategy, scripts observed after every millisecond (one check result per observation), panicking "
+        "tracing callbacks (on_check_failed also with a Drop-panicking payload); "
         "thorough adds an exhaustive sweep of short answer sequences; "
         "non-trivial = some published status flipped away from Unknown and back across a threshold")
 TRUSTED = ["for strategy 6 (Random) the model's pick is not compared: `compare` demands the same observations and the same "
@@ -38,8 +40,16 @@ ASSUMPTIONS = ["interval >= 1 ms (tokio::time::interval panics on a zero period 
                "whole-millisecond durations (tokio timer granularity); thresholds fit u32",
                "get_healthy/get_usable run on the single-threaded runtime: the two status reads inside one call "
                "(filter, then select) see the same statuses"]
-# scripts on which the REAL code violates the property (none known)
+# scripts on which the REAL code violates the property (none known; the former entry - on_health_change panicking with
+# a Drop-panicking payload killed the check loop - is fixed by /repo af6dd4c and is now a corpus reproducer)
 KNOWN_DEFECT = []
+CB_FLAGS = [1, 2, 3, 5, 6, 7]   # 1 on_check_failed panics, 2 on_health_change panics, 4 with a Drop-panicking payload
+# Clause (p) is NOT in the property text; it is the premise of its quantifier ("over many check intervals"): once the
+# initial delay is over, every resource finishes another check within 2*interval + (n+1)*timeout + 16 ms (generous:
+# it also holds if the checks of a round ran one after the other or ticks were delayed instead of skipped). Without it a
+# check loop that died (seeded/C18-r5b) fails no clause - the flip clauses speak about finished checks - and the verdict
+# would be no-failing-input-found. Set to False to state the text only.
+PROGRESS_CLAUSE = True
 # The flip conditions are read as necessary AND sufficient (a failure completing failure_threshold consecutive
 # failures DOES publish Unhealthy, a Healthy check completing success_threshold non-failing checks DOES publish
 # Healthy). Set to False to demand only the "only after / only on" direction: a flip whose condition holds may then
@@ -51,9 +61,9 @@ U32 = 2 ** 32 - 1
 BIG = 10 ** 12          # "huge" duration in ms (about 31 years): never elapses in a script
 
 
-def mk(n, f, s, interval, timeout, init, strat, tables, evs, route=0):
+def mk(n, f, s, interval, timeout, init, strat, tables, evs, route=0, cb=0):
     r = max([len(t) for t in tables] + [0])
-    out = [n, f, s, interval, timeout, init, strat + 16 * route, r, len(evs)]
+    out = [n, f, s, interval, timeout, init, strat + 16 * route + 64 * (cb if route else 0), r, len(evs)]
     for t in tables:
         t = list(t) + [(H, 0)] * (r - len(t))
         for (a, d) in t:
@@ -96,6 +106,19 @@ def corpus():
         out.append(mk(1, f, 3, 1, 2, 0, 0, tb, [(0, 0)] + [(0, 50)] * 4 + [(0, 10)] * 12 + [(2, 1)], route=f % 4))
     out.append(mk(1, U32, U32, 1, 2, 0, 0, [[(U, 0)] * 20 + [(H, 0)] * 20], [(0, 0)] + [(0, 7), (1, 1), (2, 1)] * 7))
     out.append(mk(1, 3, 256, 1, 2, 0, 2, [[(U, 0)] * 3 + [(H, 0), (D, 0)] * 140], [(0, 0), (0, 5)] + [(0, 50)] * 4 + [(0, 10)] * 12 + [(1, 1)]))
+    # fix 19290c9 (seeded/C18-r5 = its revert): a panicking on_check_failed must not make a timed-out check vanish -
+    # a resource published Healthy whose checks then time out must flip to Unhealthy after failure_threshold of them
+    for route in (1, 2, 3):
+        for cb in (1, 5, 3):
+            out.append(mk(2, 2, 1, 3, 2, 0, 0, [[(H, 0)] + [(H, 9)] * 5 + [(H, 0)] * 2, [(D, 0), (U, 0), (D, 7), (H, 7), (H, 0)]],
+                          [(0, 0)] + [(0, 1)] * 26 + [(1, 1), (2, 1)], route=route, cb=cb))
+    # fix af6dd4c (seeded/C18-r5b = its revert): on_health_change panicking with a Drop-panicking payload killed the
+    # check loop (first script: the former KNOWN_DEFECT[0]; impl then 0 0 1 1 1 for ever)
+    out.append([1, 1, 1, 3, 2, 0, 400, 4, 6, 0, 0, 2, 0, 2, 0, 2, 0, 0, 0, 0, 3, 0, 3, 0, 3, 0, 3, 1, 1])
+    for route in (1, 2, 3):
+        for cb in (6, 7):
+            out.append(mk(2, 2, 2, 2, 2, 1, 1, [[(H, 0), (U, 0), (U, 0), (H, 0), (H, 0), (D, 0)] * 4, [(D, 0), (H, 0), (H, 3), (U, 0), (U, 0)] * 4],
+                          [(0, 0)] + [(0, 1), (0, 1), (0, 2), (1, 1), (2, 1)] * 12, route=route, cb=cb))
     # round-robin cursor beyond a byte and beyond 16 bits (review 2, D1: `fetch_add(1) as u8 as usize` passed):
     # the picks around the 256th / 65536th call of ONE accessor must stay a rotation
     out.append(mk(3, 1, 1, 5, 2, 0, 1, [[(H, 0)]] * 3, [(0, 0), (0, 1), (1, 300), (2, 7), (1, 3), (2, 290)]))
@@ -204,7 +227,8 @@ def rand_script(rng, small=False):
             first = rng.choice([1, 2])
             for j in range(rng.choice([2, 4, 6])):
                 evs.append((first if j % 2 == 0 else 3 - first, rng.choice([1, 1, 2])))
-    return mk(n, f, s, interval, timeout, init, strat, tables, evs, route=route)
+    cb = rng.choice(CB_FLAGS) if rng.random() < 0.3 else 0
+    return mk(n, f, s, interval, timeout, init, strat, tables, evs, route=route, cb=cb)
 
 
 def rr_script(rng):
@@ -266,7 +290,7 @@ def fine_script(rng):
         if rng.random() < 0.08:
             evs.append((rng.choice([1, 2]), rng.choice([1, 2, n])))
     return mk(n, f, s, interval, timeout, rng.choice([0, 0, 1, 2]), rng.choice([0, 1, 1, 2, 6]), tables, evs,
-              route=rng.randrange(4))
+              route=rng.randrange(4), cb=(rng.choice(CB_FLAGS) if rng.random() < 0.4 else 0))
 
 
 def generate(rng, tier):
@@ -406,6 +430,8 @@ def monitor(s, t):
       (h) round robin, per accessor: take the picks of ONE accessor (calls of the other accessor and waits in between
           do not matter) over consecutive calls of it that all see the same non-empty eligible set: every
           len(eligible) consecutive picks are a permutation of that set (any cyclic order).
+      (p) [not in the text: the premise of "over many check intervals", see PROGRESS_CLAUSE] once the initial delay is
+          over every resource finishes another check within 2*interval + (n+1)*timeout + 16 ms.
     NOT stated here (pinned by the model comparison only): the two counters, which eligible resource a strategy
     picks, in which order round robin walks the set, when checks start."""
     dec = decode(s, t)
@@ -418,13 +444,22 @@ def monitor(s, t):
     rule = [Rule(f, sth) for _ in range(n)]
     results = [[] for _ in range(n)]      # effective results of the finished checks, oldest first
     window = {1: None, 2: None}           # per accessor: [eligible set, its picks while it saw that set]
+    now = 0                               # virtual ms
+    slack = 2 * interval + (n + 1) * max(timeout, 0) + 16
+    progress = [[max(init, 0), 0] for _ in range(n)]   # per resource: [instant, finished checks] of the last progress seen
     for (op, arg, payload) in evs:
         if op == 0:
+            now += max(0, arg)
             if cur_status is None:
                 cur_status = [K] * n
             for i, o in enumerate(payload):
                 stt, _cfl, _csu, started, fin = o
                 p = prev[i]
+                if fin > progress[i][1]:
+                    progress[i] = [now, fin]
+                elif PROGRESS_CLAUSE and interval >= 1 and now - progress[i][0] > slack:
+                    return ("resource %d: (p) no check finished between %d ms and %d ms (interval %d, timeout %d, initial delay %d): "
+                            "%d started, %d finished - the check loop stopped" % (i, progress[i][0], now, interval, timeout, init, started, fin))
                 if stt not in (H, D, U, K):
                     return ("resource %d: get_status / get_all_statuses / get_health_details disagree, or the tracing callbacks "
                             "do not replay to the published status (code %d)") % (i, stt)
@@ -522,7 +557,10 @@ def nontrivial(s, t):
 def classify(s, t):
     def bucket(x):
         return str(x) if x <= 4 else ("5-12" if x <= 12 else ("byte-edge" if x <= 300 else "huge"))
-    out = ["n%d" % min(s[0], 5), "strategy%d" % (s[6] % 16), "route%d" % (s[6] // 16), "f" + bucket(s[1]), "s" + bucket(s[2])]
+    out = ["n%d" % min(s[0], 5), "strategy%d" % (s[6] % 16), "route%d" % (s[6] // 16 % 4), "f" + bucket(s[1]), "s" + bucket(s[2])]
+    if s[6] // 64 & 1: out.append("cb_check_failed_panics")
+    if s[6] // 64 & 2: out.append("cb_health_change_panics")
+    if s[6] // 64 & 4: out.append("cb_payload_drop_panics")
     if s[3] <= s[4]:
         out.append("interval_le_timeout")
     if max(s[3], s[4], s[5]) >= BIG:
